@@ -209,3 +209,22 @@ static std::string op_mr(const Toks &t) {
     return res;
 }
 static Reg r_mr("MR", op_mr);
+
+// MSI: ascon_masked_state_init gives the all-zero value with no randomness; ascon_masked_state_free wipes every byte
+static std::string op_msi(const Toks &t) {
+    (void)t;
+    ascon_masked_state_t ms;
+    memset(&ms, 0xA5, sizeof(ms));
+    ascon_masked_state_init(&ms);
+    ascon_state_t y; unsigned char out[40];
+    ascon_x2_copy_to_x1(&y, &ms);
+    ascon_extract_bytes(&y, out, 0, 40);
+    ascon_free(&y);
+    memset(&ms, 0x5A, sizeof(ms));
+    ascon_masked_state_free(&ms);
+    const unsigned char *b = (const unsigned char *)&ms;
+    bool wiped = true;
+    for (size_t i = 0; i < sizeof(ms); ++i) if (b[i]) wiped = false;
+    return hex(out, 40) + (wiped ? " wiped" : " NOT-WIPED");
+}
+static Reg r_msi("MSI", op_msi);
